@@ -156,7 +156,7 @@ def set_param(p, t):
         p.dtype = t.dtype
     else:
         with torch.no_grad():
-            p.data = t.detach().clone().to(p.dtype)
+            p.data = t.detach().clone()
 
 
 def fire_forward(module, x):
